@@ -381,7 +381,8 @@ STATED_NOT_PROVED = {
     "C15": ["that the Rust code keys on TypeId (downcast in eq_any) — correspondence only"],
     "C16": ["that the two DFS change sets are the only hash-ordered iterations in the code — code reading + multi-process correspondence"],
     "C19": ["'later builds return from-scratch results' is proved for write-free programs over mixed histories (C19_results_after_abort_mixed, OReflexive) and for static-role programs with writes (C19_full_results_after_abort_mixed, Reflexive); role-changing programs with writes: no theorem; spurious abort after an abort = finding K6; stale output after an aborted bottom-up build with a failing checker = finding K8"],
-    "C20": ["role-changing programs: no positive theorem (finding K3)"],
+    "C20": ["role-changing programs: no positive theorem (finding K3)",
+            "transitive static roles (C20_trans_*): no diagnosed violation as the FIRST abort of any history, and never after task panics for relay-prefix programs; the unrestricted statement is false (finding K9, kernel-checked)"],
 }
 for _p, _l in STATED_NOT_PROVED.items():
     PROPS[_p]["stated_not_proved"] = _l
